@@ -142,6 +142,8 @@ def main(argv=None):
                 V.errors.append(f"model conformance step {step['name']} failed rc={r['rc']}: {(r['out'] + r['err'])[-800:]}")
 
     # 1. deductive tasks -------------------------------------------------------------------------------
+    if args.tier == "thorough":
+        os.environ["VERIF_XCHECK"] = "1"  # every distinct proved obligation is re-run on /usr/bin/z3 4.8.12 and cvc5
     tasks = prop.tasks(args.tier)
     results = pool.run_all([(t["name"], t["build"], t.get("mode", "U")) for t in tasks], procs=args.procs)
     by_task = {r["name"]: r for r in results}
@@ -155,7 +157,12 @@ def main(argv=None):
     solver_s = 0.0
     functions = {}
     trusted = set()
+    xtally = {}
     for r in results:
+        for be, d in (r.get("meta", {}).get("xcheck") or {}).items():
+            for a, c in d.items():
+                xtally.setdefault(be, {}).setdefault(a, 0)
+                xtally[be][a] += c
         solver_s += r["solver_s"]
         for q, sha in r["functions"]:
             functions[q] = sha
@@ -302,7 +309,9 @@ def main(argv=None):
         distinct_nontrivial=n_names,
         rule="one evaluation per generated proof-obligation instance (path x site) plus native conformance evaluations; distinct = distinct obligation names (function/lemma + clause); trivial (syntactically true) goals are counted but marked",
         checker_cmd=f"./check {pid} --tier {args.tier}",
-        backends={"z3-" + _z3v(): n_inst + bounded_inst},
+        backends={"z3-" + _z3v(): n_inst + bounded_inst, **{be: sum(d.values()) for be, d in xtally.items()}},
+        backend_cross_check=xtally,
+        cover=_cover_summary(results),
         solver_s=round(solver_s, 2),
         functions_under_contract=[f"{q}@{sha}" for q, sha in sorted(functions.items())],
         tasks=[dict(name=r["name"], mode=r["mode"], status=r["status"], paths=r["paths"], obligations=len(r["obligations"]), wall_s=r["wall_s"]) for r in results],
@@ -354,6 +363,16 @@ def replay(path):
         return 1 if r["rc"] == 1 else (0 if r["rc"] == 0 else 3)
     print("no native replay command recorded for this obligation (no-failing-input-found)")
     return 1
+
+
+def _cover_summary(results):
+    """vacuity guard per task: were the premises of a complete path shown satisfiable (sat), only not refutable by the
+    proof engine (canary), or is the task not solver-based (n/a)?"""
+    out = {}
+    for r in results:
+        for c in r.get("meta", {}).get("cover") or ["none"]:
+            out[c] = out.get(c, 0) + 1
+    return out
 
 
 def _z3v():
